@@ -382,6 +382,10 @@ func corrMain(args []string) {
 			}
 			defer sh.close()
 			for c := range ch {
+				if sum.tooMany() {
+					sum.count("skipped-after-many-mismatches")
+					continue
+				}
 				e, ok := exp[strconv.Itoa(c.id)]
 				if !ok || !strings.HasPrefix(e, "snaps=") {
 					sum.mismatch(Mismatch{Property: "C11", Case: c.line(), Expected: "driver output", Observed: e})
